@@ -4,8 +4,8 @@ import common
 from common import tlc, tlc_ok, tlc_must_fail, build_driver, judge, ToolError, log, HARNESS
 import eng_eval
 
-TIERS = {"quick": dict(mc="MC_Sync.cfg", trials=40, threads=8, iters=150, lock=(16, 8, 81), crowd=(5, 128, 40), lex=(6, 12, 400)),
-         "thorough": dict(mc="MC_Sync_thorough.cfg", trials=600, threads=16, iters=300, lock=(120, 8, 108), crowd=(30, 160, 40), lex=(100, 16, 600))}
+TIERS = {"quick": dict(mc="MC_Sync.cfg", trials=40, threads=8, iters=150, lock=(16, 8, 81), crowd=(5, 128, 40), lex=(6, 12, 400), long=(3, 6, 40)),
+         "thorough": dict(mc="MC_Sync_thorough.cfg", trials=600, threads=16, iters=300, lock=(120, 8, 108), crowd=(30, 160, 40), lex=(100, 16, 600), long=(20, 8, 100))}
 
 
 def distinct_events(events):
@@ -23,6 +23,53 @@ def distinct_events(events):
             seen.add(key)
             g.write(line)
     return out, total, len(seen)
+
+
+def long_pool(path):
+    """long arrays (beyond any size at which an implementation might split one evaluation over workers): tied extreme keys in different
+    quarters with distinguishable payloads, failures in two different quarters, a first quarter that is slower than the others"""
+    from common import to_tagged, cps
+    cases = []
+    def recs(n, hot):
+        return [{"id": i, "k": (9 if i in hot else (i * 7) % 9), "w": ([((i * 13 + j * 7) % 101) for j in range(40)] if i < n // 4 else None)} for i in range(n)]
+    for n, hot in ((512, (5, 500)), (300, (3, 299)), (256, (0, 255)), (192, (100, 101))):
+        d = recs(n, hot)
+        for f in ("max_by", "min_by"):
+            cases.append(("%s(@, &k).id" % f, d))
+            cases.append(("%s(@, &(length(sort(not_null(w, `[]`))) && k)).id" % f, d))
+        cases.append(("sort_by(@, &k)[*].id | [:20]", d))
+        cases.append(("map(&k, @) | [-3:]", d))
+    for n, bad in ((800, (199, 200)), (200, (49, 150)), (192, (47, 48, 190)), (400, (350, 50))):
+        nums = [(i % 17) - 8 for i in range(n)]
+        for j, b in enumerate(bad):
+            nums[b] = ["x", True, None, [1]][j % 4]
+        cases.append(("map(&abs(@), @)", nums))
+        cases.append(("max_by(@, &abs(@))", nums))
+        cases.append(("sort_by(@, &abs(@))", nums))
+        cases.append(("@[?abs(@) > `100`]", nums))
+    with open(path, "w") as f:
+        for t, d in cases:
+            f.write(json.dumps({"text": cps(t), "doc": to_tagged(d)}) + "\n")
+
+
+def schedule_dependent(events, work, ev, label):
+    """all outcomes observed for one (expression, document) pair, joined into one record for TV_Determ"""
+    groups = {}
+    for line in open(events):
+        r = json.loads(line)
+        if r.get("thr", 0) < 0:
+            continue
+        key = json.dumps([r.get("text"), r.get("doc")], sort_keys=True)
+        g = groups.setdefault(key, {"e": "determ", "text": r.get("text"), "doc": r.get("doc") if len(json.dumps(r.get("doc"))) < 4000 else {"t": "str", "s": common.cps("(long document)")}, "outs": []})
+        if r.get("out") not in g["outs"]:
+            g["outs"].append(r.get("out"))
+    path = events + ".determ"
+    with open(path, "w") as f:
+        for g in groups.values():
+            f.write(json.dumps(g) + "\n")
+    stats, rej = judge("tv/TV_Determ.tla", None, path, work)
+    ev.add_judged(label + ": one outcome per (expression, document) whatever the schedule", stats, rej, path, nsamples=1)
+    return rej
 
 
 def crowd_pool(path):
@@ -168,6 +215,19 @@ def run(prop, tier, seed, work, ev):
     ev.add_judged("concurrent compiles of texts with escaped delimiters: %d trials x %d threads (%d events, %d distinct judged)" % (n, th, total, distinct),
                   stats, rej, dpath, nsamples=1)
     rejects += rej
+    # long arrays: whatever an implementation does with them internally, every thread of every trial sees the sequential result
+    lgp = work.path("long.cases")
+    long_pool(lgp)
+    n, th, iters = t["long"]
+    gevents = work.path("long.obs")
+    trials("sync-trial", n, th, iters, lgp, gevents)
+    dpath, total, distinct = distinct_events(gevents)
+    ev.extra["thread_events_total"] = ev.extra.get("thread_events_total", 0) + total
+    stats, rej = judge("tv/TV_Eval.tla", None, dpath, work, timeout=3000)
+    ev.add_judged("long arrays (192..4000 elements; tied extremes and failures in different quarters): %d trials x %d threads (%d events, %d distinct judged)"
+                  % (n, th, total, distinct), stats, rej, dpath, nsamples=1)
+    rejects += rej
+    rejects += schedule_dependent(gevents, work, ev, "long arrays")
     # a crowd: far more threads than cores, each inside many nested calls at once (anything accounted per runtime / per process
     # instead of per search shows as a divergent result)
     cp = work.path("crowd.cases")
